@@ -156,6 +156,41 @@ func (f *freshCtx) fresh(v ssa.Value, seen map[ssa.Value]bool) bool {
 			return false
 		}
 		return f.funcFresh(callee)
+	case *ssa.Parameter:
+		// a parameter an unexported helper hands back: as fresh as what every caller passes
+		fn := t.Parent()
+		if fn == nil || fn.Object() == nil || fn.Object().Exported() || addrTaken(fn) || fn.Parent() != nil {
+			f.why = fmt.Sprintf("%T %s", v, v.String())
+			return false
+		}
+		idx := -1
+		for i, q := range fn.Params {
+			if q == t {
+				idx = i
+			}
+		}
+		key := paramKey{fn, idx}
+		if f.paramBusy == nil {
+			f.paramBusy = map[paramKey]bool{}
+		}
+		sites := f.p.staticCallers(fn)
+		if idx < 0 || len(sites) == 0 || f.paramBusy[key] {
+			f.why = "parameter " + t.Name() + " of " + f.p.FuncKey(fn)
+			return false
+		}
+		f.paramBusy[key] = true
+		defer delete(f.paramBusy, key)
+		for _, cs := range sites {
+			if _, isCall := cs.(*ssa.Call); !isCall || idx >= len(cs.Common().Args) {
+				f.why = "parameter " + t.Name() + " of " + f.p.FuncKey(fn) + " (started as a goroutine or deferred)"
+				return false
+			}
+			if !f.fresh(cs.Common().Args[idx], map[ssa.Value]bool{}) {
+				f.why = "parameter " + t.Name() + " of " + f.p.FuncKey(fn) + ": " + f.why
+				return false
+			}
+		}
+		return true
 	case *ssa.Extract:
 		if c, ok := t.Tuple.(*ssa.Call); ok {
 			if callee := c.Call.StaticCallee(); callee != nil && f.p.InModuleFn(callee) {
@@ -374,7 +409,15 @@ func (f *freshCtx) deepContents(v ssa.Value, depth int, seen map[ssa.Value]bool)
 			}
 		}
 		return false
+	case *ssa.Parameter:
+		// freshness of the parameter itself was decided at the call sites; a slice of values holds nothing shared
+		if sl, ok := t.Type().Underlying().(*types.Slice); ok && !isRefType(sl.Elem()) {
+			return true
+		}
+		f.why = "contents of parameter " + t.Name()
+		return false
 	}
+	f.why = fmt.Sprintf("contents of %T %s", v, v.String())
 	return false
 }
 
